@@ -11,11 +11,11 @@ import itertools
 from harness.core import CaseResult, hit, rng_for
 
 RULE = ('edge {smtp, wsgi-call, wsgi-loopback} x queue {Queue + RecipientDomainSplit with n = 1..4 envelopes, ProxyQueue}; Queue: every vector of write '
-        'outcomes over {ok, QueueError, QueueError carrying a 4xx / 5xx reply, other exception} for n <= 3 and single deviations for n = 4, plus a slow '
+        'outcomes over {ok, QueueError, QueueError carrying a 4xx / 5xx reply, other exception, gevent.Timeout} for n <= 3 and single deviations for n = 4, plus a slow '
         '(gated) write at each position; ProxyQueue: relay result in {None, Reply, mapping / sequence with every position failing 4xx / 5xx or none, '
         'raised Permanent / Transient}. distinct = distinct case descriptor; non-trivial = n >= 2 or a failure.')
 BUDGET_S = {'quick': 170, 'thorough': 900}
-WRITES = ['ok', 'qe', 'qe452', 'qe552', 'exc']
+WRITES = ['ok', 'qe', 'qe452', 'qe552', 'exc', 'tmo']
 
 
 def cases(tier, seed, phase):
@@ -76,6 +76,8 @@ def make_queue(case, state):
                         return DictStorage.write(self, envelope, timestamp)
                     if w == 'exc':
                         raise RuntimeError('disk on fire')
+                    if w == 'tmo':
+                        raise gevent.Timeout(1)          # a storage that bounds its own I/O: not an Exception subclass
                     e = QueueError('cannot write')
                     if w == 'qe452':
                         e.reply = Reply('452', '4.3.1 Insufficient system storage')
@@ -123,7 +125,7 @@ def recipients(case):
 
 def model_line(case):
     if case['kind'] == 'queue':
-        return 'edge queue ' + ','.join(case['writes'])
+        return 'edge queue ' + ','.join('exc' if w == 'tmo' else w for w in case['writes'])
     ro = case['relay']
     if ro in ('whole', 'reply'):
         return 'edge proxy whole'
@@ -147,6 +149,8 @@ def drive_smtp(case, queue, state):
             l = f.readline()
             if not l:
                 return None
+            if not l.strip():
+                continue            # the 421 of a timeout starts on a fresh line
             lines.append(l)
             if l[3:4] != b'-':
                 return int(l[:3])
@@ -206,7 +210,10 @@ def drive_wsgi(case, queue, state):
         box['status'] = status
 
     def go():
-        edge(environ, start_response)
+        try:
+            edge(environ, start_response)
+        except BaseException:
+            box.setdefault('status', '500 the WSGI application raised')      # what a WSGI server makes of it
         out['stored'] = snapshot_store(state)
     g = gevent.spawn(go)
     if case.get('slow') is not None:
